@@ -325,16 +325,19 @@ def _scenario(doc, incdoc, use_base, boom_mode, res, rc, handler_desc, boom, bas
             got3 = ("exc", e)
         if c05.short(got3) != c05.short(exp3):
             res.violate("third-render-differs", "%s\nthird render (armed again) gave %r, expected %r" % (what, c05.short(got3), c05.short(exp3)), replay_case=rc)
-        if run_extras and not base_exc:
+        if run_extras:
             # last, because these renders use other lookups whose templates share the cache id of `t`
-            unhandled_extras(lk, t, ctx, m1, exp, boom, res, what, rc, main_text, inc_text, base_text, model)
+            unhandled_extras(lk, t, ctx, m1, exp, boom, res, what, rc, main_text, inc_text, base_text, model, base_exc)
     finally:
         b._verif_boom = None
     if res.sample is None:
         res.sample = {"handler": handler_desc, "raise_mode": boom_mode or "node", "template": shown[:500], "expected": str(c05.short(exp))[:200]}
 
 
-def unhandled_extras(lk, t, ctx, m1, exp1, boom, res, what, rc, main_text, inc_text, base_text, model):
+def unhandled_extras(lk, t, ctx, m1, exp1, boom, res, what, rc, main_text, inc_text, base_text, model, base_exc=False):
+    """base_exc: the exception derives from BaseException only.  The Template-level handlers (error_handler,
+    format_exceptions) deal with those as well - the handler is then told the exception or its class -, the
+    include_error_handler does not"""
     rt = _st["runtime"]
     Impl = _st["DictImpl"]
     # (a) caller of render_context: marker through the same Context
@@ -344,7 +347,7 @@ def unhandled_extras(lk, t, ctx, m1, exp1, boom, res, what, rc, main_text, inc_t
     try:
         t.render_context(c)
         res.violate("exception-swallowed", "%s\nrender_context returned normally" % what, replay_case=rc)
-    except Exception as e:
+    except (Exception, tdoc.BoomBase) as e:
         if exp1[1] is boom and e is not boom:
             res.violate("exception-not-original", "%s\nrender_context propagated %r" % (what, e), replay_case=rc)
     c.write("<MARK>")
@@ -368,11 +371,11 @@ def unhandled_extras(lk, t, ctx, m1, exp1, boom, res, what, rc, main_text, inc_t
     try:
         out = lk2.get_template("main.html").render_unicode(**ctx)
         res.count("error_handler_checked")
-        if len(seen) != 1 or (exp1[1] is boom and seen[0] is not boom):
+        if len(seen) != 1 or (exp1[1] is boom and seen[0] is not boom and not (base_exc and seen[0] is type(boom))):
             res.violate("error-handler-argument", "%s\nerror_handler saw %r" % (what, seen), replay_case=rc)
         if out != partial + "<H>":
             res.violate("error-handler-output", "%s\nwith error_handler returning True render gave %r, expected %r" % (what, out, partial + "<H>"), replay_case=rc)
-    except Exception as e:
+    except (Exception, tdoc.BoomBase) as e:
         res.violate("error-handler-ignored", "%s\nerror_handler returned True but render raised %r" % (what, e), replay_case=rc)
     # (c) format_exceptions
     Impl.store.clear()
@@ -383,7 +386,7 @@ def unhandled_extras(lk, t, ctx, m1, exp1, boom, res, what, rc, main_text, inc_t
         e = exp1[1]
         if type(e).__name__ not in out or "Mako Runtime Error" not in out or not out.lstrip().startswith(("<!DOCTYPE", "<html")):
             res.violate("error-page-missing", "%s\nformat_exceptions output lacks the error page: %r" % (what, out[:200]), replay_case=rc)
-    except Exception as e:
+    except (Exception, tdoc.BoomBase) as e:
         res.violate("error-page-missing", "%s\nformat_exceptions=True but render raised %r" % (what, e), replay_case=rc)
     # (c') the same through render() with an output encoding (bytes): the error page replaces everything written so
     # far, also when the failing callable ran on a copy of the Context (inherited templates, defs)
@@ -396,8 +399,10 @@ def unhandled_extras(lk, t, ctx, m1, exp1, boom, res, what, rc, main_text, inc_t
         page = outb.decode("utf-8", "replace") if isinstance(outb, bytes) else "<<render() returned %s>>" % type(outb).__name__
         if type(e).__name__ not in page or "Mako Runtime Error" not in page or not page.lstrip().startswith(("<!DOCTYPE", "<html")):
             res.violate("error-page-missing", "%s\nformat_exceptions output of render() (bytes) is not the error page: %r" % (what, page[:200]), replay_case=rc)
-    except Exception as e:
+    except (Exception, tdoc.BoomBase) as e:
         res.violate("error-page-missing", "%s\nformat_exceptions=True but render() raised %r" % (what, e), replay_case=rc)
+    if base_exc:
+        return
     # (d) include_error_handler returning True: only differs when the raise point lies inside the include
     Impl.store.clear()
     mi = model(True, {}, include_handler=True)
